@@ -8,7 +8,7 @@ use clvm_rs::allocator;
 use clvm_rs::allocator::{Allocator, NodePtr};
 
 use clvm_rs::error::EvalErr;
-use num_bigint::ToBigInt;
+use num_bigint::{Sign, ToBigInt};
 
 use sha2::Digest;
 use sha2::Sha256;
@@ -489,6 +489,10 @@ pub fn combine(a: &RunStep, b: &RunStep) -> RunStep {
     }
 }
 
+fn path_from_u8(v: &[u8]) -> Number {
+    Number::from_bytes_be(Sign::Plus, v)
+}
+
 pub fn flatten_signed_int(v: Number) -> Number {
     let mut sign_digits = v.to_signed_bytes_le();
     sign_digits.push(0);
@@ -546,16 +550,18 @@ pub fn run_step(
                         Rc::new(step_.clone()),
                     ));
                 }
+                // The bytes of a path atom are an unsigned number, as in the
+                // consensus evaluator: 0xff80 is the path 65408, not -128.
                 SExp::QuotedString(l, _, v) => {
                     step = RunStep::Step(
-                        Rc::new(SExp::Integer(l.clone(), number_from_u8(v))),
+                        Rc::new(SExp::Integer(l.clone(), path_from_u8(v))),
                         context.clone(),
                         parent.clone(),
                     );
                 }
                 SExp::Atom(l, v) => {
                     step = RunStep::Step(
-                        Rc::new(SExp::Integer(l.clone(), number_from_u8(v))),
+                        Rc::new(SExp::Integer(l.clone(), path_from_u8(v))),
                         context.clone(),
                         parent.clone(),
                     );
